@@ -31,7 +31,7 @@ func TestMain(m *testing.M) { os.Exit(R.Main(m)) }
 // Case is a session program: tables, statements, and who reads at the end.
 type Case struct {
 	Tables []pgprog.TableSpec `json:"tables"`
-	Steps  []pgprog.Step      `json:"steps"`
+	Steps  []PStep            `json:"steps"`  // paged_test.go: a pgprog.Step, optionally with a row limit / a fetch from an open portal
 	Reader string             `json:"reader"` // owner | nokeys
 }
 
@@ -39,8 +39,25 @@ func genCase(t *rapid.T) Case {
 	c := Case{Tables: pgprog.GenTables(t, pgprog.ProgKinds, "alice"), Reader: rapid.SampledFrom([]string{"owner", "nokeys"}).Draw(t, "reader")}
 	g := pgprog.NewGenState(c.Tables)
 	n := rapid.IntRange(1, 8).Draw(t, "nsteps")
+	var open []int // steps that opened a portal with a row limit (paged_test.go)
 	for i := 0; i < n; i++ {
-		c.Steps = append(c.Steps, pgprog.GenProgStep(t, c.Tables, g, fmt.Sprintf("s%d", i)))
+		// the next page of a result set that is being read in pages, between the other statements
+		if len(open) > 0 && rapid.IntRange(0, 2).Draw(t, fmt.Sprintf("fetch%d", i)) == 0 {
+			c.Steps = append(c.Steps, genFetch(t, c.Steps, open, fmt.Sprintf("fetch%d", i)))
+		}
+		var st PStep
+		if len(open) > 0 && rapid.IntRange(0, 2).Draw(t, fmt.Sprintf("readbetween%d", i)) == 0 {
+			// more reads than usual while a result set is open: rows of two statements alternate on the connection
+			st.Step = pgprog.GenSelectStep(t, c.Tables, g, fmt.Sprintf("s%d", i))
+		} else {
+			st.Step = pgprog.GenProgStep(t, c.Tables, g, fmt.Sprintf("s%d", i))
+		}
+		// a read in pages where the generator knows of rows (keys handed out for the table)
+		if st.Op == "select" && g.NextID[st.Table] > 1 && rapid.IntRange(0, 1).Draw(t, fmt.Sprintf("paged%d", i)) == 0 {
+			genPaged(t, &st, fmt.Sprintf("paged%d", i))
+			open = append(open, len(c.Steps))
+		}
+		c.Steps = append(c.Steps, st)
 		// sometimes execute an earlier prepared SELECT again, after other statements went through
 		var prepared []int
 		for j, st := range c.Steps {
@@ -53,6 +70,7 @@ func genCase(t *rapid.T) Case {
 		if len(prepared) > 0 && len(c.Steps) > prepared[0]+1 && rapid.IntRange(0, 3).Draw(t, fmt.Sprintf("reexec%d", i)) == 0 {
 			j := rapid.SampledFrom(prepared).Draw(t, fmt.Sprintf("reexec%d.which", i))
 			re := c.Steps[j]
+			re.MaxRows, re.Fetch = 0, 0 // executed again through the unnamed portal, without a row limit
 			if re.Op != "select" {
 				re.ReOp = re.Op
 			}
@@ -60,6 +78,12 @@ func genCase(t *rapid.T) Case {
 			re.ResultFmt = int16(rapid.IntRange(0, 1).Draw(t, fmt.Sprintf("reexec%d.rfmt", i)))
 			re.Describe = "P"
 			c.Steps = append(c.Steps, re)
+		}
+	}
+	// the rest of some of the result sets that are still open at the end
+	for k, j := range open {
+		if rapid.Bool().Draw(t, fmt.Sprintf("rest%d", k)) {
+			c.Steps = append(c.Steps, genFetch(t, c.Steps, []int{j}, fmt.Sprintf("rest%d", k)))
 		}
 	}
 	return c
@@ -195,8 +219,30 @@ func Check(c Case) (hx.Vs, map[string]bool, bool) {
 	var protectedMarkers [][]byte
 	wroteProtected, readAfter := false, false
 	inconclusive := false
-	for si, st := range c.Steps {
+	// result sets read in pages (paged_test.go): portals live inside a transaction block
+	pg := newPaging(c.Steps)
+	if pg.any {
+		if rep, err := s.Simple("BEGIN"); err != nil || len(rep.Errors) > 0 {
+			if errors.Is(err, pgsess.ErrTimeout) {
+				R.Note("inconclusive: deadline in BEGIN")
+				return o.vs, o.classes, false
+			}
+			o.vs.Add("session-broken:begin", "BEGIN: %v %v; proxy errors %v", err, rep, waitProxyErrs(s))
+			return o.vs, o.classes, false
+		}
+	}
+	for si, ps := range c.Steps {
+		st := ps.Step
+		if st.Table < 0 || st.Table >= len(c.Tables) {
+			continue
+		}
 		tb := c.Tables[st.Table]
+		// a portal that still holds rows while this statement runs: its rows and this statement's rows interleave
+		during := pg.suspended()
+		while := ""
+		if during != nil {
+			while = "-while-portal-suspended"
+		}
 		if st.Op == "reexec" {
 			st.Op = "select"
 			if st.ReOp != "" {
@@ -207,7 +253,22 @@ func Check(c Case) (hx.Vs, map[string]bool, bool) {
 		r := pgprog.Render(c.Tables, st)
 		var rep *pgsess.Reply
 		var err error
-		if st.Reexec > 0 {
+		if ps.Fetch > 0 {
+			po := pg.portals[ps.Fetch-1]
+			if po == nil {
+				o.class("fetch:no-open-portal") // only in hand-made cases: the generator fetches from portals it opened
+				continue
+			}
+			r.SQL = fmt.Sprintf("(Execute portal %s, row limit %d)", portalName(ps.Fetch-1), ps.MaxRows)
+			rep, err = s.Fetch(portalName(ps.Fetch-1), uint32(max(ps.MaxRows, 0)))
+			o.class("paged:fetch")
+		} else if ps.paged() {
+			e := pgprog.ExtOf(st, r, fmt.Sprintf("st%d", si))
+			e.PortalName = portalName(si)
+			rep, err = s.ExtendedLimit(e, uint32(ps.MaxRows))
+			o.class(fmt.Sprintf("ext/pfmt%d/rfmt%d", st.ParamFmt, st.ResultFmt))
+			o.class("paged:open/describe-" + st.Describe)
+		} else if st.Reexec > 0 {
 			e := pgprog.ExtOf(st, r, fmt.Sprintf("st%d", st.Reexec-1))
 			e.SkipParse, e.DescribeStmt, e.DescribePort = true, false, true
 			rep, err = s.Extended(e)
@@ -389,7 +450,8 @@ func Check(c Case) (hx.Vs, map[string]bool, bool) {
 				if st.OnConflict != "" {
 					o.class("upsert:returning")
 				}
-				o.checkRows("insert-returning", tb, st.Returning, added, rep, resFmt, true)
+				pg.rowsDuring(o, during, tb, st.Returning, rep)
+				o.checkRows("insert-returning"+while, tb, st.Returning, added, rep, resFmt, true)
 			}
 		case "update":
 			whereClass()
@@ -429,7 +491,8 @@ func Check(c Case) (hx.Vs, map[string]bool, bool) {
 			}
 			if len(st.Returning) > 0 {
 				o.class("returning")
-				o.checkRows("update-returning", tb, st.Returning, touched, rep, resFmt, true)
+				pg.rowsDuring(o, during, tb, st.Returning, rep)
+				o.checkRows("update-returning"+while, tb, st.Returning, touched, rep, resFmt, true)
 			}
 		case "delete":
 			whereClass()
@@ -457,7 +520,8 @@ func Check(c Case) (hx.Vs, map[string]bool, bool) {
 				if wroteProtected && len(gone) > 0 {
 					readAfter = true
 				}
-				o.checkRows("delete-returning", tb, st.Returning, gone, rep, resFmt, true)
+				pg.rowsDuring(o, during, tb, st.Returning, rep)
+				o.checkRows("delete-returning"+while, tb, st.Returning, gone, rep, resFmt, true)
 			}
 		case "insert-select":
 			src := c.Tables[st.SrcTable]
@@ -494,7 +558,8 @@ func Check(c Case) (hx.Vs, map[string]bool, bool) {
 			}
 			if len(st.Returning) > 0 {
 				o.class("returning")
-				o.checkRows("insert-select-returning", tb, st.Returning, added, rep, resFmt, true)
+				pg.rowsDuring(o, during, tb, st.Returning, rep)
+				o.checkRows("insert-select-returning"+while, tb, st.Returning, added, rep, resFmt, true)
 			}
 		case "select":
 			cols := st.Cols
@@ -515,10 +580,23 @@ func Check(c Case) (hx.Vs, map[string]bool, bool) {
 			if wroteProtected && len(want) > 0 {
 				readAfter = true
 			}
-			o.checkRows("select", tb, cols, want, rep, resFmt, true)
+			if ps.paged() {
+				// the first page; the portal keeps the rows the statement saw when it started
+				po := pg.open(si, tb, cols, want, resFmt)
+				o.checkPage("paged-select"+while, po, ps.MaxRows, rep)
+				break
+			}
+			pg.rowsDuring(o, during, tb, cols, rep)
+			o.checkRows("select"+while, tb, cols, want, rep, resFmt, true)
+		case "fetch":
+			po := pg.portals[ps.Fetch-1]
+			if wroteProtected && po.next < len(po.want) {
+				readAfter = true
+			}
+			o.checkPage("fetch"+map[bool]string{true: "-while-other-portal-suspended"}[during != nil && during != po], po, ps.MaxRows, rep)
 		}
 		// statements the configuration does not cover must reach the database unchanged
-		if !tb.Configured {
+		if !tb.Configured && ps.Fetch == 0 {
 			o.class("unconfigured-table")
 			recv := s.DB.Received()
 			if len(recv) > 0 {
@@ -528,6 +606,16 @@ func Check(c Case) (hx.Vs, map[string]bool, bool) {
 					o.vs.Add("uncovered-statement-rewritten", "statement on an unconfigured table was forwarded as %.200q, sent %.200q", sql, r.SQL)
 				}
 			}
+		}
+	}
+	if pg.any {
+		rep, err := s.Simple("COMMIT")
+		if errors.Is(err, pgsess.ErrTimeout) {
+			R.Note("inconclusive: deadline in COMMIT")
+			return o.vs, o.classes, false
+		}
+		if err != nil || len(rep.Errors) > 0 {
+			o.vs.Add("session-broken:commit", "COMMIT: %v %v; proxy errors %v", err, rep, waitProxyErrs(s))
 		}
 	}
 	// what the database received and stored
@@ -679,7 +767,7 @@ func Check(c Case) (hx.Vs, map[string]bool, bool) {
 }
 
 func TestSessions(t *testing.T) {
-	R.Rule("TestSessions", "session program = generated encryptor configuration (1-2 tables, 2-5 columns of kinds plain/enc/search/mask/token/typed with envelopes, declared types, failure policies, per-column client) + 1-8 statements (INSERT with column list / schema order / multi-row / casts / RETURNING, with ON CONFLICT DO NOTHING or DO UPDATE SET c = literal | placeholder | the placeholder of VALUES again | EXCLUDED.c | DEFAULT | t.c on keys that exist or not; UPDATE with several SET items mixing literals, placeholders, DEFAULT and columns; DELETE [RETURNING]; conditions on the key, a searchable or a consistently tokenized column as literal or placeholder; INSERT ... SELECT of one row inside a table or between uncovered columns of two tables; SELECT star / list / aliases [WHERE id]; re-execution of a prepared SELECT / UPDATE / DELETE / upsert after other statements) over the simple or the extended protocol (text/binary parameters, text/binary results, declared or inferred parameter types, optional Describe), run through acra's real PostgreSQL proxy between a scripted client and a typed fake database; then everything is read back by the owner or by a client without keys. Oracles: wire and store confidentiality (markers, NULL/empty preserved), the database holds exactly the rows of the model (upserts in place, deletes), owner reads and RETURNING equal the model (decoded by an independent codec as the described type), keyless reader never gets a marker, uncovered columns/statements unchanged. Non-trivial = a write to a protected column followed by a read of it")
+	R.Rule("TestSessions", "session program = generated encryptor configuration (1-2 tables, 2-5 columns of kinds plain/enc/search/mask/token/typed with envelopes, declared types, failure policies, per-column client) + 1-8 statements (INSERT with column list / schema order / multi-row / casts / RETURNING, with ON CONFLICT DO NOTHING or DO UPDATE SET c = literal | placeholder | the placeholder of VALUES again | EXCLUDED.c | DEFAULT | t.c on keys that exist or not; UPDATE with several SET items mixing literals, placeholders, DEFAULT and columns; DELETE [RETURNING]; conditions on the key, a searchable or a consistently tokenized column as literal or placeholder; INSERT ... SELECT of one row inside a table or between uncovered columns of two tables; SELECT star / list / aliases [WHERE id]; re-execution of a prepared SELECT / UPDATE / DELETE / upsert after other statements; reads in pages: an extended-protocol SELECT bound to a named portal inside BEGIN..COMMIT and executed with a row limit of 1-3 (rows + PortalSuspended), further Execute messages for that portal with a limit of 1-2 or none between the other statements - with extra SELECTs while a portal is open - and at the end, also after the portal was completed) over the simple or the extended protocol (text/binary parameters, text/binary results, declared or inferred parameter types, optional Describe), run through acra's real PostgreSQL proxy between a scripted client and a typed fake database; then everything is read back by the owner or by a client without keys. Oracles: wire and store confidentiality (markers, NULL/empty preserved), the database holds exactly the rows of the model (upserts in place, deletes), owner reads and RETURNING equal the model (decoded by an independent codec as the described type) - also for statements answered while a portal is suspended (signatures ...-while-portal-suspended) -, every page of a portal holds the next rows of what its statement matched when it started, as the owner has to see them, and ends with PortalSuspended exactly when the limit was reached, keyless reader never gets a marker, uncovered columns/statements unchanged. Non-trivial = a write to a protected column followed by a read of it")
 	hx.Checks(800, 2500)
 	rapid.Check(t, func(rt *rapid.T) {
 		c := genCase(rt)
